@@ -41,13 +41,18 @@ def expr_leaves(e):
     return [e] if e[0] == 0 else expr_leaves(e[1]) + expr_leaves(e[2])
 
 
-def eval_py(e, rng_ops):
+def eval_py(e, rng_ops, leaves_out=None):
     """evaluate with the real operators; inner nodes choose between a + b, operator.add,
-    and a += b"""
+    and a += b.  leaves_out collects (operand object, its text) so that the caller can check
+    that no operand object was modified (x += y must rebind, not mutate, an HTML() that may be
+    referenced elsewhere)"""
     if e[0] == 0:
-        return [lambda s: s, HTML, Other][e[1]](e[2])
-    a = eval_py(e[1], rng_ops)
-    b = eval_py(e[2], rng_ops)
+        o = [lambda s: s, HTML, Other][e[1]](e[2])
+        if leaves_out is not None:
+            leaves_out.append((o, e[2]))
+        return o
+    a = eval_py(e[1], rng_ops, leaves_out)
+    b = eval_py(e[2], rng_ops, leaves_out)
     how = rng_ops.pop() if rng_ops else 0
     if how == 0:
         return a + b
@@ -81,7 +86,12 @@ def run(ctx: Ctx) -> None:
 
     def impl(c):
         e, ops = c
-        r = safe_call(lambda: eval_py(e, list(ops)))
+        lv_objs = []
+        r = safe_call(lambda: eval_py(e, list(ops), lv_objs))
+        for o, txt in lv_objs:
+            if str(o) != txt:
+                ctx.violation("an operand object of + / += was modified in place (it no longer renders verbatim where "
+                              "else it is used)", c, {"operand_now": str(o), "operand_before": txt})
         if r[0] != "ok":
             return ("typeerror",) if r == ("err", 3) else r
         v = r[1]
